@@ -67,11 +67,12 @@ def find_aliases(raw):
         for e, fe in extra.items():
             if fm['args'] != fe['args'] or fm['ret'] != fe['ret'] or fm['kind'] != fe['kind']:
                 continue
-            # same enclosing path (module / type): a rename changes the last segment only; a move keeps the last segment
-            if m.rpartition('::')[0] != e.rpartition('::')[0] and m.rpartition('::')[2] != e.rpartition('::')[2]:
-                continue
-            # callee names may themselves have been renamed: compare with the renamed item's own last segment neutralised
             s = _sim(fm['callees'], fe['callees'])
+            # same enclosing path (module / type): a rename changes the last segment only; a move keeps the last segment;
+            # renamed AND moved is accepted only for a near-identical body with real content (>= 3 calls, similarity >= 0.8)
+            if m.rpartition('::')[0] != e.rpartition('::')[0] and m.rpartition('::')[2] != e.rpartition('::')[2]:
+                if s < 0.8 or sum(fm['callees'].values()) < 3:
+                    continue
             cands.append((s, m, e))
     cands.sort(reverse=True)
     out, used_m, used_e = {}, set(), set()
@@ -180,5 +181,11 @@ if __name__ == '__main__':
             for a, fs in adt_fields(raw_).items():
                 adts.setdefault(a, {}).update(fs)
     tab['__adts__'] = adts
+    try:
+        d, info = extract.extract('default', 'rel')
+        bs = json.load(open(os.path.join(d, 'build_script_build.json')))
+        tab['__build__'] = sorted(b['name'] for b in bs['bodies'] if eligible(b))
+    except Exception as e:
+        print('build script table skipped:', e)
     json.dump(tab, open(TABLE, 'w'), indent=0, sort_keys=True)
     print('%d reference functions written to %s' % (len(tab), TABLE))
